@@ -18,6 +18,16 @@ CHECKS = {
         design_ref="6.11",
         note=LEVEL_NOTE_COMMON + " Theorems exclude NaN priorities (keys form a total order) and need size < 32768.",
     ),
+    "C12": dict(
+        technique="Coq proof (invariant on in_graph sets: a skipped push is a rejected push) over the transcribed update kernels, tied to the code by exact differential execution; refutation witness for the pinned variant",
+        text=("Theorem C12_high_eq_low (coq/props/C12.v): for every graph of max-heap rows carrying own distances and every list of update "
+              "lists with symmetric distances, the high-memory path (in_graph sets) yields exactly the heaps and change count of the "
+              "low-memory path; C12_pinned_second_branch_refuted shows by computation that the variant found in the pinned tree does not. "
+              "The models are transcriptions of utils.py compared bit-for-bit with the compiled kernels (and whole nn_descent in both "
+              "modes, thread counts 1..4) on every run; the property itself is evaluated on NNDescent(low_memory=True/False) pairs."),
+        design_ref="6.12",
+        note=LEVEL_NOTE_COMMON + " Thread-count independence of the low-memory prange loop rests on the generic ownership theorem (proofs/Par.v) plus correspondence runs, not on a refinement proof of that kernel.",
+    ),
 }
 
 REASON_PENDING = "check not built yet in this round (design in DESIGN.md section 6; no claim is made until the check exists)"
